@@ -55,6 +55,15 @@ theorem validateV2CurrencyOverflow_noPanic (t : Txn2) : NoPanic (validateV2Curre
   repeat' split
   all_goals simp
 
+theorem validateV2TaxPool_noPanic (ms : Mid) (t : Txn2) : NoPanic (validateV2TaxPool ms t) := by
+  unfold validateV2TaxPool
+  simp only []
+  split <;> simp
+
+theorem validateTaxPool_noPanic (ms : Mid) (t : Txn1) : NoPanic (validateTaxPool ms t) := by
+  unfold validateTaxPool
+  split <;> simp
+
 theorem validateCurrencyOverflow_noPanic (t : Txn1) : NoPanic (validateCurrencyOverflow t) := by
   unfold validateCurrencyOverflow
   split <;> simp
@@ -69,6 +78,7 @@ theorem v2Txn_rejected_of_sc {ms : Mid} {t : Txn2} {mw : Nat} (h : Rejected (val
   split
   · simp
   refine bind_rejected_of (validateV2CurrencyOverflow_noPanic t) (fun _ => ?_)
+  refine bind_rejected_of (validateV2TaxPool_noPanic ms t) (fun _ => ?_)
   split
   · simp
   split
@@ -544,7 +554,7 @@ theorem c08_v1_forbidden_from (ms : Mid) (t : Txn1) (pid mw : Nat) (h : ms.base.
 
 /-- … and below it the rule does not fire: acceptance is `childHeight < v2Require` ∧ the other validators -/
 theorem c08_v1_forbidden_from_threshold (ms : Mid) (t : Txn1) (pid mw : Nat)
-    (hother : validateCurrencyOverflow t = .ok () ∧ t.weight ≤ mw ∧
+    (hother : (validateCurrencyOverflow t = .ok () ∧ validateTaxPool ms t = .ok ()) ∧ t.weight ≤ mw ∧
        validateMinimumValues t = .ok () ∧ validateSiacoins ms t = .ok () ∧ validateSiafunds ms t = .ok () ∧
        validateFileContracts ms t pid = .ok () ∧ validateArbitraryData ms t = .ok () ∧ validateSignatures t = .ok ()) :
     validateTransaction ms t pid mw = .ok () ↔ ms.base.child < ms.base.P.v2Require := by
@@ -571,7 +581,7 @@ theorem c08_v2_allowed_from (ms : Mid) (t : Txn2) (mw : Nat) (h : ms.base.child 
 
 /-- … and from it on the rule does not fire -/
 theorem c08_v2_allowed_from_threshold (ms : Mid) (t : Txn2) (mw : Nat)
-    (hother : validateV2CurrencyOverflow t = .ok () ∧ t.weight ≠ 0 ∧
+    (hother : (validateV2CurrencyOverflow t = .ok () ∧ validateV2TaxPool ms t = .ok ()) ∧ t.weight ≠ 0 ∧
        t.weight ≤ mw ∧ validateV2Siacoins ms t = .ok () ∧ validateV2Siafunds ms t = .ok () ∧
        validateV2FileContracts ms t = .ok () ∧ t.attsOk = true ∧ validateFoundationUpdate ms t = .ok ()) :
     validateV2Transaction ms t mw = .ok () ↔ ms.base.P.v2Allow ≤ ms.base.child := by
